@@ -136,7 +136,8 @@ def generate(ctx):
     # INFO table type) while the lazily read twin writes its source bytes; writes of such tables are generated and
     # observed in 1/10 of the runs only
     no_write = ctx.excl and fd["format"] == "vcfinfo"
-    ops = L.gen_program(ctx, fd, [fd["n_records"]], 12 if thorough else 8, allow_item=not ctx.excl, allow_write=not no_write)
+    ops = L.gen_program(ctx, fd, [fd["n_records"]], 12 if thorough else 8, allow_item=not ctx.excl, allow_write=not no_write,
+                         allow_other_target=True)
     return {"file": fd, "chunk_k": k, "ops": ops, "observe_write": not no_write}
 
 
